@@ -199,6 +199,116 @@ for _sfx in ("", "_async"):
             c.replay("code", code=REPLAY_FIRST)
     _mk(_sfx)
 
+# ---- statement: "the default undefined type never raises for a missing variable or path".
+# ---- RenderContext.get / get_async turn every lookup error of the scope chain and of the item
+# ---- getter (contract above: only KeyError / IndexError / TypeError) into env.undefined(...)
+
+for _sfx in ("", "_async"):
+    for _n in (1, 2, 3):
+        def _mkget(sfx, n):
+            @contract(CTX + ".get" + sfx, prop="C16", name=f"get{sfx}[path-length-{n}: a missing path resolves to env.undefined(...), never raises]")
+            def g(c):
+                env = mk_env(c, undefined=VClass("liquid.undefined", "Undefined"))  # the default undefined type
+                ctx = mk_ctx(c, env)
+                root = c.any("root")
+                segs = [c.any(f"segment{i}") for i in range(1, n)]
+                path = c.st.alloc(HList(items=[root, *segs]))
+
+                def item(eng, st, a, k):
+                    outs = [(st.fork(), VU(z3.Const(f"item_{len(st.log)}", U)))]
+                    for cls in ("KeyError", "IndexError", "TypeError"):
+                        outs.append((st.fork(), Raised(VExc(cls, (const(cls),)))))
+                    st.log.append(("get_item",))
+                    return outs
+
+                c.summary(CTX + ".get_item" + sfx, item)
+                c.call(path, self_val=ctx, token=NONE)
+                c.raises()
+                c.ensures("completes-with-a-value", lambda r: z3.BoolVal(True))
+                c.assume_note("get_item raises only the lookup errors of its own contract; the default Undefined is constructed by its real __init__")
+                c.replay("code", code=REPLAY_MISSING)
+        _mkget(_sfx, _n)
+
+# ---- statement: "With StrictUndefined, ... iterating ... a missing variable raises
+# ---- UndefinedError" -- whatever limit/offset say; and the default type iterates as empty
+
+LOOPX = "liquid.builtin.expressions.loop:LoopExpression"
+
+
+def _loop_over_undefined(fname, S, limit_present, offset_kind):
+    @contract(f"{LOOPX}.{fname}", prop="C16", name=f"LoopExpression.{fname}[iterable={S},limit={'yes' if limit_present else 'no'},offset={offset_kind}]")
+    def le(c):
+        std_globals(c)
+        EXP = "liquid.expression:Expression"
+        u = mk_undef(c, S, "_it")
+        lim_v, off_v = c.any("limit_value"), c.any("offset_value")
+        iterable = c.obj(EXP, "iterable_expr", __value__=u, token=NONE)
+        limit = c.obj(EXP, "limit_expr", __value__=lim_v, token=NONE) if limit_present else NONE
+        if offset_kind == "expression":
+            offset = c.obj(EXP, "offset_expr", __value__=off_v, token=NONE)
+        elif offset_kind == "continue":
+            offset = c.obj("liquid.builtin.expressions.primitive:StringLiteral", "offset_literal", value=const("continue"), token=NONE)
+        else:
+            offset = NONE
+        ev = lambda eng, st, a, k: [(st, st.deref(a[0]).fields["__value__"])]  # noqa: E731
+        c.summary("liquid.expression:Expression.evaluate", ev)
+        c.summary("liquid.expression:Expression.evaluate_async", ev)
+        c.summary(LOOPX + "._slice", lambda eng, st, a, k: [(st, VTuple((NONE, const(0))))])
+        ctx = mk_ctx(c)
+        self = c.obj(LOOPX, "loop", iterable=iterable, limit=limit, offset=offset, identifier=c.str("ident"), reversed=c.bool("rev"), cols=NONE)
+        c.call(ctx, self_val=self)
+        if S == "Undefined":
+            c.raises("LiquidTypeError", "LiquidValueError")   # only from a limit/offset value that is not an (acceptable) integer
+            c.ensures("default-undefined-iterates-as-empty", lambda r: z3.BoolVal(True))
+        else:
+            c.raises("UndefinedError", "LiquidTypeError", "LiquidValueError")
+            c.ensures("iterating-a-strict-undefined-never-completes", lambda r: z3.BoolVal(False))
+        c.assume_note("limit/offset expressions evaluate to arbitrary values; _slice is summarised (its contract is C13's)")
+        c.replay("code", code=REPLAY_LOOP_UNDEF)
+
+
+for _f in ("evaluate", "evaluate_async"):
+    for _S in ("StrictUndefined", "StrictDefaultUndefined", "Undefined"):
+        for _lp in (False, True):
+            for _ok in ("none", "expression", "continue"):
+                _loop_over_undefined(_f, _S, _lp, _ok)
+
+REPLAY_LOOP_UNDEF = r'''
+def run(m):
+    import asyncio
+    from liquid import Environment, StrictUndefined
+    from liquid.exceptions import UndefinedError
+    bad = []
+    for src in ["{% for x in nosuch %}a{% else %}e{% endfor %}", "{% for x in nosuch limit: 0 %}a{% else %}e{% endfor %}", "{% for x in nosuch.things limit: n offset: 1 reversed %}a{% else %}e{% endfor %}", "{% tablerow x in nosuch limit: 0 %}a{% endtablerow %}"]:
+        for a in (False, True):
+            t = Environment(undefined=StrictUndefined).from_string(src)
+            try:
+                out = asyncio.run(t.render_async(n=-1)) if a else t.render(n=-1)
+                bad.append((src, a, out))
+            except UndefinedError:
+                pass
+            d = Environment().from_string(src)
+            out = asyncio.run(d.render_async(n=-1)) if a else d.render(n=-1)
+            if "a" in out:
+                bad.append((src, a, "default:" + out))
+    return {"violated": bool(bad), "observed": bad[:3], "witness": "strict-undefined-iterated"}
+'''
+
+REPLAY_MISSING = r'''
+def run(m):
+    import asyncio
+    from liquid import Environment
+    t = Environment().from_string("[{{ xs[5] }}|{{ xs[-9] }}|{{ e.first }}|{{ e.last }}|{{ d.a.b }}|{{ n.x }}|{{ s[2] }}]")
+    data = dict(xs=[1, 2], e=[], d={}, n=None, s="ab")
+    out = []
+    for f in (lambda: t.render(**data), lambda: asyncio.run(t.render_async(**data))):
+        try:
+            out.append(f())
+        except BaseException as ex:
+            out.append(type(ex).__name__)
+    return {"violated": out != ["[||||||]", "[||||||]"], "observed": out, "witness": "missing-path-raises"}
+'''
+
 REPLAY_FIRST = r'''
 def run(m):
     import asyncio
